@@ -18,8 +18,8 @@ if [ "$what" != neutral ]; then
   done
 fi
 if [ "$what" != seeds ]; then
-  declare -A REL=( [N1]="C01 C02 C18 C04" [N2]="C03 C05 C11 C12 C13 C20 C06 C07" [N3]="C06 C07 C08 C09 C19" [N4]="C14 C15 C16 C17 C20" [N5]="C10 C04 C19" )
-  for k in N1 N2 N3 N4 N5; do
+  declare -A REL=( [N1]="C01 C02 C18 C04" [N2]="C03 C05 C11 C12 C13 C20 C06 C07" [N3]="C06 C07 C08 C09 C19" [N4]="C14 C15 C16 C17 C20" [N5]="C10 C04 C19" [N6]="C15 C16 C17 C20 C19 C08 C09" [N7]="C04 C05 C06 C07 C11 C12 C01" )
+  for k in N1 N2 N3 N4 N5 N6 N7; do
     git -C /repo apply /verif/seeded/neutral/$k.diff || { echo "$k: patch does not apply"; bad=1; continue; }
     for c in ${REL[$k]}; do
       ./check $c > build/regress_${k}_$c.log 2>&1; rc=$?
